@@ -172,12 +172,13 @@ def explore(st, gi, n, X, cfg, path, judges):
             best = finite[0] if len(finite) else -np.inf
             if res[0][1] is not None and res[0][1] != best:
                 st.violation(f'beam/optimum/{gkey(g)}', f'returned {res[0][1]}, optimum over admitted tags is {best}', x=x, **base)
-        if 'nbest' in judges and not amb[c] and not getattr(g, 'mixed', False):
-            got = [r[1] for r in res]
+        if 'nbest' in judges and not amb[c]:
+            mixed = getattr(g, 'mixed', False)      # which scores are the k largest is claimed for head-uniform grammars only;
+            got = [r[1] for r in res]               # distinctness and order hold for every grammar
             want = finite[:nbest].tolist()
             if any(s is None for s in got):
                 continue
-            if got != want:
+            if got != want and not mixed:
                 kind = 'count' if len(got) != len(want) else ('order' if sorted(got, reverse=True) == want else 'scores')
                 st.violation(f'nbest/{kind}/{gkey(g)}', f'k={nbest}: returned scores {got}, the k best of {len(finite)} derivations are {want}', x=x, **base)
             trees = [r[0] for r in res]
